@@ -60,6 +60,7 @@ type RawSrvParams struct {
 	Hostile bool        `json:"hostile"` // sequences are arbitrary (C13); otherwise valid foreign conversations (C03, C05)
 	Close   bool        `json:"close"`   // fail the client's reads at the end
 	CloseErr int        `json:"close_err,omitempty"` // which error the client's Read reports when the connection ends
+	NilKV   bool        `json:"nil_kv,omitempty"` // every metadata list the peer sends has a nil entry appended (by-reference links only)
 	Enum    int         `json:"enum,omitempty"` // >0: Seq is the idx-th sequence of that length in the bounded enumeration
 }
 
@@ -200,6 +201,7 @@ func genRawValid(g *rand.Rand, tier string) any {
 func genRawHostile(g *rand.Rand, tier string) any {
 	p := &RawSrvParams{Links: drawLinks(g, 2), Hostile: true, Close: true}
 	p.Links[0].Cap, p.Links[1].Cap = -1, -1
+	p.NilKV = g.IntN(8) == 0
 	for i := 0; i < 2; i++ {
 		c := &CallSpec{ID: i + 1, MsgLen: 12}
 		if g.IntN(2) == 0 {
@@ -234,7 +236,11 @@ func execRawSrv(e *Env, pp any) {
 	}
 	lc := func(i int) LinkCfg {
 		if i < len(p.Links) {
-			return p.Links[i]
+			c := p.Links[i]
+			if p.NilKV {
+				c.Serialise = false // a nil list element cannot be serialised
+			}
+			return c
 		}
 		return LinkCfg{Cap: -1}
 	}
@@ -306,6 +312,15 @@ func execRawSrv(e *Env, pp any) {
 			}
 			k := seqOf[callID]
 			env := buildResp(rr.Shape, id, m, callID, k)
+			if p.NilKV {
+				if env.Header != nil {
+					env.Header.Headers = append(env.Header.Headers, nil)
+				}
+				if env.Trailer != nil {
+					env.Trailer.Metadata = append(env.Trailer.Metadata, nil)
+				}
+				e.Note("shape.nil-metadata-entry")
+			}
 			if carriesBody(rr.Shape) {
 				seqOf[callID] = k + 1
 				histMu.Lock()
